@@ -231,7 +231,9 @@ def inputOp (cfg : Cfg) (s : AState) : Nat → AState
       let s := if c == 10 then s.addLineno cfg 1 else s
       s.emit s!"in {c.toNat}"
     | [] =>
-      let (s, more) := doWrap s
+      -- as in yylex: at the end of the input a buffer read from a file is re-initialised (yyrestart), which puts it
+      -- at the beginning of a line, before yywrap is asked
+      let (s, more) := doWrap s.eofRestart
       if more then inputOp cfg s fuel else s.emit "in 0"
 
 /-- buffer-level operations (C11) -/
